@@ -82,10 +82,31 @@ def run_case(ctg, case):
         # first, differently seeded, reconfiguration has already been through):
         # the answer must not depend on what was called before
         tree = build_tree(ctg, case)
-        if case.get("pre_reconf"):
+        if case.get("pre_reconf") == "like_call":
+            a_ = case.get("args", {})
+            # (not in place: the tree under test is itself the result of a
+            # reconfiguration, as in ``tree = tree.subtree_reconfigure(...)``)
+            if case["api"] == "reconf":
+                tree = tree.subtree_reconfigure(
+                    subtree_size=a_["size"], maxiter=a_["maxiter"], seed=12345,
+                    select=a_["select"], subtree_search=a_["search"],
+                )
+            else:
+                tree = tree.subtree_reconfigure(subtree_size=a_.get("size", 3), maxiter=4, seed=12345)
+        elif case.get("pre_reconf"):
             tree.subtree_reconfigure_(subtree_size=3, maxiter=2, seed=12345)
+        # (the equal tree is made BEFORE the first call: what is compared are
+        # two equal trees that have been through the same history)
+        other = tree
+        if case.get("clone") == "pickle":
+            # ... or on an equal tree: a pickled clone (what a process pool gets)
+            import pickle
+
+            other = pickle.loads(pickle.dumps(tree))
+        elif case.get("clone") == "copy":
+            other = tree.copy()
         first = run_case_inner(ctg, case, tree)
-        second = run_case_inner(ctg, case, tree)
+        second = run_case_inner(ctg, case, other)
         return {"first": first, "second": second}
     return run_case_inner(ctg, case, None)
 
